@@ -274,7 +274,13 @@ def h_patch(bshape: int, bv: int, pshape: int, pv: int, fin: bool, lbl: bool, fa
 
 def obligations():
     obs = split(Ob('h_response', {}, timeout=600, twins=['denied']), n=[0, 1, 2, 3])
-    obs += split(Ob('h_select', {}, timeout=900, twins=['selected']), op=[0, 1, 2, 3], hops=[0, 1, 2, 3])
-    obs += split(Ob('h_patch', {'key': 'a'}, timeout=900, twins=['mutated', 'mapping_over_scalar']), bshape=[0, 1, 2, 3, 4, 5])
-    obs += split(Ob('h_patch', {'key': 'x/y~z'}, timeout=900, tiers=('thorough',)), bshape=[0, 1, 2, 3, 4, 5])
+    for (op, hops) in ((0, 0), (2, 1), (2, 2), (1, 3), (3, 0), (2, 0)):
+        obs.append(Ob('h_select', {'pin': {'op': op, 'hops': hops}}, tiers=('quick',), timeout=900))
+    obs.append(Ob('h_select', {}, tiers=('quick', 'thorough'), timeout=300, twins=['selected'], main=False))
+    obs += split(Ob('h_select', {}, timeout=900, tiers=('thorough',)), op=[0, 1, 2, 3], hops=[0, 1, 2, 3])
+    for (bshape, pshape) in ((1, 5), (3, 6), (2, 8), (4, 6), (5, 7), (4, 1), (0, 5), (5, 4)):
+        obs.append(Ob('h_patch', {'key': 'a', 'pin': {'bshape': bshape, 'pshape': pshape}}, tiers=('quick',), timeout=600))
+    obs.append(Ob('h_patch', {'key': 'a'}, tiers=('quick', 'thorough'), timeout=300, twins=['mutated', 'mapping_over_scalar'], main=False))
+    for key in ('a', 'x/y~z'):
+        obs += split(Ob('h_patch', {'key': key}, timeout=900, tiers=('thorough',)), bshape=[0, 1, 2, 3, 4, 5], pshape=[0, 1, 2, 3, 4, 5, 6, 7, 8])
     return obs
